@@ -38,6 +38,7 @@ CLAUSE_PROPS = {
     "RecordOutput": {"C13"},
     "RecordRngChain": {"C13"},
     "RecordMessagesComplete": {"C13"},
+    "RecordParams": {"C13"},
     "InertLog": {"C13"},
     "ExactlyOnce": {"C06"},
     "ExactlyOnce_MissingExecution": {"C06"},
